@@ -1207,6 +1207,10 @@ def check_client_state(ck, rule, classes=None):
                         hits.append((f.value.attr, "call .%s()" % f.attr))
                 for (attr, how) in hits:
                     n3 += 1
+                    if how in ("store", "through store") and isinstance(n.ast, ast.Assign) and fi.name in ("_notify",) and \
+                            all(a_[0] == "call" and a_[1] == ("global", "_Notify") for a_ in prov.value_alts(prov.origin(gg, n, n.ast.value))):
+                        ck.ok(rule, "%s: store self.%s" % (q.fn(fi), attr), "the proxy's own notifier object (built from the proxy alone): no data of a call", q.loc(fi, n))
+                        continue
                     if how == "store" and isinstance(n.ast, ast.AugAssign) and isinstance(n.ast.value, ast.Constant) and \
                             isinstance(n.ast.value.value, (int, float)) and not isinstance(n.ast.value.value, bool):
                         ck.ok(rule, "%s: store self.%s" % (q.fn(fi), attr), "a counter stepped by a constant: no data of a call", q.loc(fi, n))
